@@ -27,7 +27,8 @@ def w_compare(case, verdict):
         for i, (m, t) in enumerate(zip(model, impl["tours"])):
             if m is None:
                 continue   # commute / non-integral: outside the model, counted by the driver
-            t2 = {"stops": t["stops"], "statistic": {k: t["statistic"][k] for k in STAT_KEYS}}
+            keys = STAT_KEYS + (["commuting", "parking"] if case.get("k") == "wcluster" else [])
+            t2 = {"stops": t["stops"], "statistic": {k: t["statistic"][k] for k in keys}}
             if m != t2:
                 what = "statistic" if m["stops"] == t2["stops"] else "stops"
                 diffs.append(f"tour {i} ({t.get('vehicleId')}): {what} differ")
@@ -74,7 +75,9 @@ PROP = dict(
                     corpus_ids=["C03W"],
                     label="writer stage: Lean model of create_tour vs the real writer on dumps of real routes")],
     compare=S.make_compare("replay"), nontrivial=S.nontrivial, extra_evidence=S.extra, rule=S.RULE,
-    modelled="solution_writer.rs::create_tour as a whole on routes without commute/parking and reserved times (C03W.writeTour: the fold over "
+    modelled="solution_writer.rs::create_tour as a whole, incl. the commute / parking branches for expanded vicinity clusters (C03W.writeTourC, "
+             "correspondence on every route of the clustered stream; proved to be a conservative extension of the plain model: "
+             "writeTourC_plain); on routes without commute/parking and reserved times C03W.writeTour: the fold over "
              "the reload intervals and the activities - stops and their grouping by location, activity ids / types / place tags / times, "
              "loads per interval incl. get_capacity and calculate_load, cumulative stop distances, the statistic, the fixed cost, the pass "
              "that removes redundant activity details) AND break_writer.rs insert_reserved_times_as_breaks / insert_break (C03W.writeTourX: "
@@ -88,11 +91,11 @@ PROP = dict(
            "dump, not modelled: one problem in five of the writer stage has required breaks, the written tour must equal the model's and "
            "is judged by the break clauses C03W.specBreakTour (driving+serving+waiting+break = duration, duration "
            "= span of the stops, cost = fixed + distance*c_d + duration*c_t, break entry = sum of the reported break activities, every break "
-           "inside the tour's time span) - this stream found S52, S53, S54; the writer on clustered routes: Spec.replay recomputes from matrices, vehicle costs and the reported visiting order only — arrival = previous "
+           "inside the tour's time span) - this stream found S52, S53, S54; for clustered problems of the campaign Spec.commuteReplay (commute legs and stop-to-stop distances against the routing data); Spec.replay recomputes from matrices, vehicle costs and the reported visiting order only — arrival = previous "
            "departure + scaled travel time, cumulative stop distances, activities inside a stop sequential, load per stop (per reload "
            "interval), tour statistic, cost = fixed + distance*c_d + duration*c_t, overall = sum of tours; the reported tag is the tag of "
            "the place (location, duration, window) that explains the activity (Spec.feasible/placeExplains)",
-    out_of_model="commute/parking (clustering); the core's scheduling around reserved times; the +-1 rounding of non-integral data (integer data only)",
+    out_of_model="the core's scheduling around reserved times and its expansion of clusters (taken from the route dump); the +-1 rounding of non-integral data (integer data only)",
     assumptions=["integer-valued data: the +-1 tolerance of the format is applied but never needed"],
 )
 
